@@ -284,6 +284,21 @@ func (s *bitcoinStream) voteBlocks(r *tr.Rng, n int) {
 	s.push(tr.NewOp("hashes/blocks"+cls, "tx.hashes", append(args, "start", tip+1, "hashes", tr.HexList(hashes))...))
 }
 
+// voteBlockFirst: one block whose first transaction is `first` (followed by a few others), voted
+func (s *bitcoinStream) voteBlockFirst(r *tr.Rng, first *btcTx) {
+	tip := s.tip()
+	h := tip + 1
+	txs := []*btcTx{first}
+	for j := 1 + r.Intn(3); j > 0; j-- {
+		txs = append(txs, mkTx(r, []*wire.TxOut{wire.NewTxOut(int64(1000+r.Intn(100000)), r.Bytes(22))}, 1))
+	}
+	b := mkBlock(r, h, txs)
+	s.blocks[h] = b
+	m := &bitcointypesMsgNewBlockHashes{StartBlockNumber: h, BlockHash: [][]byte{b.hash}}
+	cls, args := s.validVote(r, "Bitcoin/NewBlocks", m.sigDoc())
+	s.push(tr.NewOp("hashes/blocks"+cls, "tx.hashes", append(args, "start", h, "hashes", tr.HexList([][]byte{b.hash}))...))
+}
+
 // coinbase: first transaction of a block; frequently itself a well-formed deposit (maturity rule)
 func (s *bitcoinStream) coinbase(r *tr.Rng) *btcTx {
 	p, _ := s.w.Btc.Params.Get(s.w.Ctx)
@@ -999,6 +1014,13 @@ func (s *bitcoinStream) genFinalize(r *tr.Rng) {
 		cls += "/foreign-tx"
 	}
 	b, idx := s.findTx(tx.txid)
+	if b == nil && r.Chance(10) {
+		// the payout mined as the FIRST transaction of its block: position 0 with a genuine path must still be
+		// refused (position 0 means coinbase)
+		s.voteBlockFirst(r, tx)
+		cls += "/payout-is-first-tx"
+		b, idx = s.findTx(tx.txid)
+	}
 	if b == nil {
 		s.mempool = append(s.mempool, tx)
 		s.voteBlocks(r, 1)
